@@ -85,12 +85,12 @@ CLAIMS = {
         text=("Kernel-checked theorems: for every directory tree, recursive or not, from the root or a sub-directory, the "
               "walk collects exactly the files not below an always-excluded directory and not compiled artefacts "
               "(pruning = filtering, at every depth); every documented ignore-pattern form (name/, **/name/, *.ext, exact "
-              "path) is matched exactly as gitignore reads it (fnmatch re-stated in Lean, lemmas about * / literals); hence "
+              "path, glob on a directory name, dir/sub/, **/name) is matched exactly as gitignore reads it (fnmatch re-stated in Lean, lemmas about * / literals); hence "
               "linted set = specified set (linted_eq_spec, no side conditions beyond well-formed names); a run with several targets lints the "
               "union of what each contributes, every file once, direct children only under --no-recursive (mem_lintedTargets, "
               "lintedTargets_nodup, nonrecursive_direct_children). Tables regenerated "
               "from /repo; model compared with the real CLI on generated trees through a deny-everything file-placement probe. "
-              "Three genuine defects found by the model were repaired in /repo (fix: commits a1ae4e9, bd0e3d3)."),
+              "Genuine defects found by the model were repaired in /repo (fix: commits a1ae4e9, bd0e3d3, ce97ca4, 9e3f507)."),
         note=("Trusted: Lean kernel; os.walk, fnmatch and pathlib are re-stated in Lean and only sampled against the real "
               "ones; patterns outside the documented forms ([seq] classes, negation) are not covered; symlinks only as a spelling of the target (C09)."),
         technique="Lean 4 proof (mutual structural induction over trees, list/glob lemmas) + differential correspondence check",
@@ -235,7 +235,8 @@ CLAIMS = {
               "do not leak. The Lean engine is run on the same text as the real IgnoreDirectiveParser for generated files, and 18 linter x "
               "language cells are exercised through the CLI with inserted directives. Six genuine defects repaired (fix: b019dd1, 941ccd3, "
               "caa0cf6, 52e96d9, method-property), and the four linters that had no ignore plumbing at all (F04p:*, first recorded) and the "
-              "str.splitlines() line look-ups (F04q) since."),
+              "str.splitlines() line look-ups (F04q) since; later the same-line recogniser (another tool's ignore[...] before the directive, "
+              "F04r_witness), rule lists swallowing a // remark and the bracketed ignore-start of the documentation (fix: c2adba9, c681ec1, b71c428)."),
         note=("Python's re is re-stated as string functions (validated on every generated file); which linters route their violations "
               "through the engine is observed per linter, not modelled; linter-specific extras (DRY inline ranges, TS noqa) are only "
               "exercised, not modelled; repository/linter-level ignore patterns are C14/C09's subject."),
@@ -277,7 +278,8 @@ CLAIMS = {
               "precedence (pair_exact), files satisfying all applicable rules and all files under an empty configuration are never "
               "reported, at most one violation per rule family, the verdict is a function of the relative path and rule set only. The "
               "model is executed with Python's re.search matrix and compared with `thailint file-placement` (path, full message, exit) "
-              "on generated rule sets x 17 paths; invalid patterns must exit 2. One genuine defect repaired (string-prefix matching)."),
+              "on generated rule sets x 20 paths, every third rule set also through a second Linter object on the same directory; invalid "
+              "patterns must exit 2. Two genuine defects repaired (string-prefix matching; depth of keys with a trailing slash, 84fa986)."),
         note=("Python's re is a parameter of the theorems and trusted in the run; reading of the statement: global_deny / global_patterns "
               "apply to every file, also to files covered by a directory rule (the conjunctive reading)."),
         technique="Lean 4 proof (case analysis + induction over the rule list, regex semantics as a parameter) + differential check",
